@@ -140,6 +140,11 @@ async def session(ctx, case):
             vec = client.get_device(d).get_vector(p)
             sent = {}
             for nm in chosen:
+                if rng.random() < 0.2:
+                    # the application changes its mind before submitting: the element is assigned twice, the LAST value counts
+                    cv0, _ = gen_value(rng, kind)
+                    vec.get_element(nm).value = cv0
+                    ctx.count("elements_assigned_twice_before_a_submit")
                 cv, ev = gen_value(rng, kind)
                 vec.get_element(nm).value = cv
                 sent[nm] = ev
